@@ -394,7 +394,7 @@ fn main() {
     check.assume("one sentinel event per partition (reserved ids) is appended in the whole run and in the matching per-key run to flush one-step patterns; outputs containing a sentinel are ignored on both sides");
     check.assume("sub group_by (`.window(N).partition_by(k).aggregate(..)`, the window itself is shared) is outside the per-key-run equation; it is judged by a direct reference: one output per key present in each block of N arrivals, aggregating that key's events only");
     check.assume(".not clauses are excluded (per stream by design, DESIGN 2.3); sequence semantics themselves are C01-C03's subject, only independence is judged here");
-    check.explore("per_key", strat, 5_000, 100_000, run);
-    check.explore("group_by", || (2i64..=8, win_events()).prop_map(|(n, events)| GroupCase { n, events }), 3_000, 60_000, run_group);
+    check.explore("per_key", strat, 3_000, 60_000, run);
+    check.explore("group_by", || (2i64..=8, win_events()).prop_map(|(n, events)| GroupCase { n, events }), 1_500, 30_000, run_group);
     check.finish();
 }
